@@ -11,6 +11,7 @@ import (
 	"os"
 	"path/filepath"
 	"sort"
+	"sync"
 	"time"
 
 	"google.golang.org/protobuf/types/known/timestamppb"
@@ -119,6 +120,11 @@ type world struct {
 	fetchFaults    int // injected fetch failures so far (compared before/after an engine call)
 	partitionUntil time.Time
 	partitionLeft  int
+
+	// concurrent step (burst.go)
+	burstOn bool
+	mu      sync.Mutex
+	parked  []*parkedFetch
 
 	// oracle model
 	svSeen map[string]svRec      // AS|proto|begin -> end,key : a secret value never changes
@@ -328,6 +334,15 @@ func (f *simFetcher) fail(kind string) (drkey.Level1Key, error) {
 // IA comes from its certificate, only predefined protocols, Engine.DeriveLevel1).
 func (f *simFetcher) Level1(ctx context.Context, meta drkey.Level1Meta) (drkey.Level1Key, error) {
 	w, r := f.w, f.w.r
+	if w.burstOn {
+		// concurrent step: the fetch is parked (durably, on its own channel) until the simulator
+		// releases it; everything below then runs while all other goroutines are blocked
+		p := &parkedFetch{idx: burstIdx(ctx), meta: meta, ch: make(chan struct{})}
+		w.mu.Lock()
+		w.parked = append(w.parked, p)
+		w.mu.Unlock()
+		<-p.ch
+	}
 	w.fetchCalls++
 	src := w.byIA(meta.SrcIA)
 	if src == nil || src.eng == nil {
@@ -341,7 +356,7 @@ func (f *simFetcher) Level1(ctx context.Context, meta drkey.Level1Meta) (drkey.L
 		if r.Chance("fault.fetch.fail.request", 1, 7) {
 			return f.fail("fetch.fail.request")
 		}
-		if r.Chance("fault.fetch.delay", 1, 9) {
+		if !w.burstOn && r.Chance("fault.fetch.delay", 1, 9) {
 			// slow transport: simulated time passes (possibly across an epoch boundary) mid-request
 			d := time.Duration(1+r.Choice("fetch.delay.ms", 20000)) * time.Millisecond
 			if r.Choice("fetch.delay.long", 4) == 3 {
